@@ -612,8 +612,14 @@ void updateUnitsMapWithStandardUnit(const std::string &name, UnitsMap &unitsMap,
     }
 }
 
-void updateUnitsMap(const UnitsPtr &units, UnitsMap &unitsMap, double exp = 1.0)
+void updateUnitsMap(const UnitsPtr &units, UnitsMap &unitsMap, std::vector<UnitsPtr> &unitsPath, double exp = 1.0)
 {
+    // Units that cannot be found, or that are defined in terms of themselves, do not contribute.
+    if ((units == nullptr) || (std::find(unitsPath.begin(), unitsPath.end(), units) != unitsPath.end())) {
+        return;
+    }
+    unitsPath.push_back(units);
+
     if (units->isBaseUnit()) {
         auto unitsName = units->name();
         auto found = unitsMap.find(unitsName);
@@ -627,7 +633,7 @@ void updateUnitsMap(const UnitsPtr &units, UnitsMap &unitsMap, double exp = 1.0)
     } else if (units->isImport()) {
         auto importSource = units->importSource();
         auto importedUnits = importSource->model()->units(units->importReference());
-        updateUnitsMap(importedUnits, unitsMap, exp);
+        updateUnitsMap(importedUnits, unitsMap, unitsPath, exp);
     } else {
         for (size_t i = 0; i < units->unitCount(); ++i) {
             std::string ref;
@@ -641,17 +647,21 @@ void updateUnitsMap(const UnitsPtr &units, UnitsMap &unitsMap, double exp = 1.0)
             } else {
                 auto model = owningModel(units);
                 auto refUnits = model->units(ref);
-                updateUnitsMap(refUnits, unitsMap, uExp * exp);
+                updateUnitsMap(refUnits, unitsMap, unitsPath, uExp * exp);
             }
         }
     }
+
+    unitsPath.pop_back();
 }
 
 UnitsMap defineUnitsMap(const UnitsPtr &units)
 {
     UnitsMap unitsMap;
 
-    updateUnitsMap(units, unitsMap);
+    std::vector<UnitsPtr> unitsPath;
+
+    updateUnitsMap(units, unitsMap, unitsPath);
 
     // Checking for exponents of zero in the map, which can be removed.
     auto it = unitsMap.begin();
